@@ -19,6 +19,25 @@ Theorem large_guard_complete : forall size e a,
 Proof. exact llo_guard_complete_proof. Qed.
 Print Assumptions large_guard_complete.
 
+(* Backend::remap (scalable_realloc of a region-sized block): with the test `alignedSize < newSize`, an accepted
+   region request was computed without wrap-around in newSize+userOffset, in alignToBin, in the header sum and in
+   the rounding to the page granularity. *)
+Theorem remap_guard_complete : forall new_size off hdr last g req,
+  1 <= new_size < W64 -> 0 <= off <= 2 ^ 32 -> 0 <= hdr <= 4096 -> 0 <= last <= 4096 -> 12 <= g <= 30 ->
+  remap_request true off new_size hdr last (2 ^ g) = Some req ->
+  new_size + off < W64 /\ new_size + off <= align_to_bin (w64 (new_size + off)) /\
+  hdr + align_to_bin (w64 (new_size + off)) + last <= req < W64.
+Proof. exact remap_guard_complete_proof. Qed.
+Print Assumptions remap_guard_complete.
+
+(* ... and without that test the property is violated (the defect repaired by the fix: commit): a request near
+   SIZE_MAX is accepted with a region smaller than the requested size. *)
+Theorem remap_old_check_refuted :
+  exists off new_size req, 1 <= new_size < W64 /\ W64 <= new_size + off /\
+    remap_request false off new_size 64 64 4096 = Some req /\ req < new_size.
+Proof. exact remap_old_check_refuted_proof. Qed.
+Print Assumptions remap_old_check_refuted.
+
 Example guard_example :
   llo_alloc_size (2 ^ 64 - 1) 64 = None /\ llo_alloc_size (2 ^ 63) (2 ^ 63) = None /\
   llo_alloc_size 100000 64 = Some 106496 /\ calloc_refuses (2 ^ 32) (2 ^ 32) = true /\ calloc_refuses 3 5 = false.
